@@ -12,6 +12,7 @@ def check(ctx):
     rep.floor("zone-name table obligations (T-ZONES)", nz, 2)
     from rules import tz as _tzs
     nsf = _tzs.check_strftime(ctx, rep)
+    _tzs.check_date_text(ctx, rep)
     rep.floor("time-of-day text writers", nsf, 3)
     from rules import tz as _tzr
     nr = _tzr.check_component_rebuild(ctx, rep)
